@@ -312,6 +312,17 @@ func wConfig(prop, tier string) *Config {
 			}
 			cfg.Phases = append(cfg.Phases, Phase{Name: fmt.Sprintf("distribution-params-depth%d", d), Roots: []string{"R8"}, Ops: append(append([]string{}, first...), second...), First: first, Second: second, Depth: d, Dev: 3})
 		}
+		// ORACLE OUTAGE in progress (root R9): user activity in blocks WITHOUT a price feed (composites with
+		// nofeed), also after governance switched Eden rewards on for the constant-product pool
+		{
+			out := []string{BlockOf("nofeed", "cfg_mc_eden_rewards_p2_on"), BlockOf("nofeed", "swap_in_p2_usdc_elys_L"), BlockOf("nofeed", "swap_in_p2_elys_usdc_D"), BlockOf("nofeed", "swap_in_p1_usdc_atom_D"), BlockOf("nofeed", "join_p2_all_t1"),
+				BlockOf("nofeed", "exit_p2_half_lp1"), BlockOf("nofeed", "mc_claim_lp1"), BlockOf("nofeed", "perp_open_long_t3_x5"), "nofeed", "empty"}
+			d := 2
+			if thorough {
+				d = 3
+			}
+			cfg.Phases = append(cfg.Phases, Phase{Name: fmt.Sprintf("outage-activity-depth%d", d), Roots: []string{"R9"}, Ops: out, Depth: d, Dev: 4})
+		}
 	case "C20":
 		ops := []string{"ts_spot_limitbuy_met_own1", "ts_spot_limitbuy_unmet_own1", "ts_spot_limitsell_met_own1", "ts_spot_stoploss_unmet_own1", "ts_spot_limitbuy_met_own2", "ts_marketbuy_own2",
 			"ts_perp_long_met_own1", "ts_perp_long_unmet_own1", "ts_perp_short_unmet_own1", "ts_perp_long_met_huge_own1", "ts_perp_long_met_own2",
